@@ -41,6 +41,7 @@ type Ev struct {
 	Reg  int    `json:"reg,omitempty"`
 	EID  uint64 `json:"eid,omitempty"`
 	Res  int    `json:"res,omitempty"` // result (count, 1 = error / true ...)
+	Par  uint64 `json:"par,omitempty"` // nested publish: event id being handled by the publishing handler
 }
 
 // World is one bus under a concurrent workload.
@@ -202,7 +203,12 @@ func (w *World) Publish(g, t int, ctx context.Context) uint64 {
 
 // PublishID publishes event id.
 func (w *World) PublishID(g, t int, ctx context.Context, id uint64) uint64 {
-	call := w.Rec(Ev{G: g, K: "pub.call", T: t, EID: id})
+	return w.PublishNested(g, t, ctx, id, 0, 0)
+}
+
+// PublishNested publishes from inside a handler (parent registration / event recorded).
+func (w *World) PublishNested(g, t int, ctx context.Context, id uint64, parReg int, parEID uint64) uint64 {
+	call := w.Rec(Ev{G: g, K: "pub.call", T: t, EID: id, Reg: parReg, Par: parEID})
 	if !w.Record {
 		call = 0
 	}
@@ -211,7 +217,7 @@ func (w *World) PublishID(g, t int, ctx context.Context, id uint64) uint64 {
 	} else {
 		w.Drivers[t].PublishContext(w.Bus, ctx, id)
 	}
-	w.Rec(Ev{G: g, K: "pub", Call: call, T: t, EID: id})
+	w.Rec(Ev{G: g, K: "pub", Call: call, T: t, EID: id, Reg: parReg, Par: parEID})
 	return id
 }
 
@@ -273,4 +279,22 @@ func SameShardTypes(all []evt.Driver, n int, pick uint64) []evt.Driver {
 		}
 	}
 	return out
+}
+
+// NoisyCtx wraps a context so that the bus's calls to Done / Err — user code, like any other
+// callback — become yield points (noise in stress runs, gates in scenarios).
+type NoisyCtx struct {
+	context.Context
+	W   *World
+	EID uint64
+}
+
+func (c *NoisyCtx) Done() <-chan struct{} {
+	c.W.yield("ctx.done", 0, c.EID)
+	return c.Context.Done()
+}
+
+func (c *NoisyCtx) Err() error {
+	c.W.yield("ctx.err", 0, c.EID)
+	return c.Context.Err()
 }
